@@ -35,6 +35,8 @@ def target_logp(kind, x):
             return -0.05 * sum(v * v for v in x) if all(abs(v) < 1 for v in x) else -math.inf
         if kind == "logdomain":
             return (math.log(x[0]) if x[0] > 0 else math.nan) - x[0] - 0.5 * sum(v * v for v in x[1:])
+        if kind == "sqrtgrad":
+            return (-x[0] - 2 * math.sqrt(x[0]) if x[0] >= 0 else math.nan) - 0.5 * sum(v * v for v in x[1:])
         if kind in ("sqrtdomain", "ball"):
             r = 1 - sum(v * v for v in x)
             return math.log(r) if r > 0 else math.nan
@@ -59,9 +61,12 @@ def generate(rng, tier):
             eps = rng.choice([1e-3, 0.1, 1.0, 30.0, 1e6, 1e30])
             cases.append({"sampler": "hmc", "f": f, "target": {"kind": sup}, "init": init, "eps": fb(eps if f == "f64" else C.f32_bits_to_float(C.float_to_f32_bits(eps))),
                           "L": rng.choice([1, 3, 10]), "k": 8, "seed": str(rng.getrandbits(64))})
-        for sup, f in [("halfline", "f32"), ("logdomain", "f32"), ("ball", "f32"), ("halfline", "f64"), ("ball", "f64")]:
+        # sqrtgrad: density AND gradient are NaN outside the support (the initial step-size search must still terminate)
+        for sup, f in [("halfline", "f32"), ("logdomain", "f32"), ("ball", "f32"), ("halfline", "f64"), ("ball", "f64"),
+                       ("sqrtgrad", "f32"), ("sqrtgrad", "f64")]:
             d = rng.choice([1, 2])
-            c = {"sampler": "nuts", "op": "transitions", "f": f, "target": {"kind": sup}, "init": [fb(0.5)] + [fb(0.1)] * (d - 1),
+            c = {"sampler": "nuts", "op": "transitions", "f": f, "target": {"kind": sup},
+                 "init": [fb(1.0 if sup == "sqrtgrad" else 0.5)] + [fb(0.1)] * (d - 1),
                  "accept": 0.8, "seed": str(rng.getrandbits(64)), "runs": [[rng.randint(3, 6), rng.randint(0, 3)]]}
             if rng.random() < 0.6:
                 c["force_eps"] = fb(rng.choice([1e-3, 0.3, 5.0, 1e4, 1e30]))
